@@ -1930,7 +1930,13 @@ template <class S>
 IMATH_HOSTDEVICE inline const Matrix22<T>&
 Matrix22<T>::setRotation (S r) IMATH_NOEXCEPT
 {
-    S cos_r, sin_r;
+    //
+    // The angle is converted to T and the cosine and sine are kept in T:
+    // temporaries of the argument type S would round them to S (and
+    // truncate them to zero for an integral S).
+    //
+
+    T cos_r, sin_r;
 
     cos_r = cos ((T) r);
     sin_r = sin ((T) r);
@@ -3108,7 +3114,13 @@ template <class S>
 IMATH_HOSTDEVICE inline const Matrix33<T>&
 Matrix33<T>::setRotation (S r) IMATH_NOEXCEPT
 {
-    S cos_r, sin_r;
+    //
+    // The angle is converted to T and the cosine and sine are kept in T:
+    // temporaries of the argument type S would round them to S (and
+    // truncate them to zero for an integral S).
+    //
+
+    T cos_r, sin_r;
 
     cos_r = cos ((T) r);
     sin_r = sin ((T) r);
@@ -4631,7 +4643,8 @@ template <class S>
 IMATH_HOSTDEVICE inline const Matrix44<T>&
 Matrix44<T>::setEulerAngles (const Vec3<S>& r) IMATH_NOEXCEPT
 {
-    S cos_rz, sin_rz, cos_ry, sin_ry, cos_rx, sin_rx;
+    // cosines and sines are kept in T, not in the argument type S
+    T cos_rz, sin_rz, cos_ry, sin_ry, cos_rx, sin_rx;
 
     cos_rz = cos ((T) r.z);
     cos_ry = cos ((T) r.y);
@@ -4669,9 +4682,10 @@ template <class S>
 IMATH_HOSTDEVICE IMATH_CONSTEXPR14 inline const Matrix44<T>&
 Matrix44<T>::setAxisAngle (const Vec3<S>& axis, S angle) IMATH_NOEXCEPT
 {
-    Vec3<S> unit (axis.normalized ());
-    S       sine   = std::sin (angle);
-    S       cosine = std::cos (angle);
+    // computed in T, not in the argument type S
+    Vec3<T> unit (Vec3<T> (axis).normalized ());
+    T       sine   = std::sin ((T) angle);
+    T       cosine = std::cos ((T) angle);
 
     x[0][0] = unit.x * unit.x * (1 - cosine) + cosine;
     x[0][1] = unit.x * unit.y * (1 - cosine) + unit.z * sine;
@@ -4701,18 +4715,19 @@ template <class S>
 IMATH_HOSTDEVICE inline const Matrix44<T>&
 Matrix44<T>::rotate (const Vec3<S>& r) IMATH_NOEXCEPT
 {
-    S cos_rz, sin_rz, cos_ry, sin_ry, cos_rx, sin_rx;
-    S m00, m01, m02;
-    S m10, m11, m12;
-    S m20, m21, m22;
+    // computed in T, not in the argument type S (as setEulerAngles)
+    T cos_rz, sin_rz, cos_ry, sin_ry, cos_rx, sin_rx;
+    T m00, m01, m02;
+    T m10, m11, m12;
+    T m20, m21, m22;
 
-    cos_rz = cos ((S) r.z);
-    cos_ry = cos ((S) r.y);
-    cos_rx = cos ((S) r.x);
+    cos_rz = cos ((T) r.z);
+    cos_ry = cos ((T) r.y);
+    cos_rx = cos ((T) r.x);
 
-    sin_rz = sin ((S) r.z);
-    sin_ry = sin ((S) r.y);
-    sin_rx = sin ((S) r.x);
+    sin_rz = sin ((T) r.z);
+    sin_ry = sin ((T) r.y);
+    sin_rx = sin ((T) r.x);
 
     m00 = cos_rz * cos_ry;
     m01 = sin_rz * cos_ry;
